@@ -448,6 +448,10 @@ def field(t, name, idx):
             # `s.first_chunk::<N>()`: the first N elements of `s` themselves (indexing the payload indexes `s`)
             if "::first_chunk::<" in c[1] and len(c[2]) == 1:
                 return c[2][0]
+    # `let (head, tail) = s.split_at(k)`: head is `&s[..k]`, tail is `&s[k..]`
+    if t[0] == "call" and t[1].endswith("::split_at") and ("[T]" in t[1] or "slice::" in t[1]) and len(t[2]) == 2 and idx in (0, 1):
+        rng = ("agg", "adt", "std::ops::RangeTo", "RangeTo", (t[2][1],)) if idx == 0 else ("agg", "adt", "std::ops::RangeFrom", "RangeFrom", (t[2][1],))
+        return ("call", "core::slice::index::<impl std::ops::Index<I> for [T]>::index", (t[2][0], rng))
     if t[0] == "agg" and t[1] in ("tuple", "adt", "closure", "array"):
         ops = t[4]
         if isinstance(idx, int) and idx < len(ops):
